@@ -1,5 +1,7 @@
 import CuqiVerif.Model.C01_attrs
+import CuqiVerif.Proofs.C01_attrs
 import Mathlib.Data.List.Basic
+import Mathlib.Data.List.Nodup
 import Mathlib.Tactic.Tauto
 
 /-!
@@ -28,12 +30,22 @@ variables, `get_conditioning_variables` / `get_indirect_variables`, and
   `mean`, the conditioning variable `x` disappears although it was never given.
 * `acond_self_named_example` — the same call on `Normal(0, std=lambda std: …)` is right.
 
-Not delivered (full statement kept here): `acond_refines_condDist` —
-for every distribution `d₀` without name collisions and every environment `env`,
-`acond (bind env d₀) args kw` and `condDist (toFactor d₀) env d₀.c args kw` return corresponding
-results (same error class / distribution with environment `bindEnv …` / likelihood with the same
-data / evaluated density with the same value).  The lemmas above are its per-variable ingredients;
-the correspondence is validated on every run by the attribute-level tie stream instead.
+Refinement of the abstract model (second pass): `toFactor`, `AOK` (side conditions: the two harmful
+collision kinds excluded, self-named arguments allowed), `bindD env d₀` (Proofs) = the distribution after `env`.
+* `acondVars_bind_eq_free` — `get_conditioning_variables()` of `bindD env d₀` = `free (toFactor d₀) env`.
+* `condAttr_refines_bind`, `condAttrs_refine_bind` — one `_condition` call moves every mutable variable from
+  `bindD env d₀` to `bindD (bindEnv env cv kw) d₀`: the loop computes exactly the environment update of `condDist`.
+* `condAttr_processed_iff` — which keywords count as processed.
+
+`acond_refines_condDist` is delivered in these parts (`…_partial` in the sense of the brief: state correspondence
+proved for ALL collision-free distributions incl. shared callables; not yet composed with the branch selection).
+Full statement, still open:  for `AOK d₀`, keywords with distinct keys on which the refusal of
+`acond_refuses_nonconditioning_attribute` does not fire,
+  `ARel d₀ (acond (bindD env d₀) args kw) (condDist (toFactor d₀) env d₀.c args kw)`
+where `ARel` relates equal errors, `dist (bindD env' d₀)` with `.dist (toFactor d₀) env' c`, `lik (bindD env' d₀) x`
+with `.lik (toFactor d₀) env' x c`, and `eval name v` with `.eval (some name) v 0`.  Missing steps: `unused = []`
+iff no keyword outside `cv` (from `condAttr_processed_iff`), unreachability of the silent fall-through, and
+`avals (bindD env' d₀)` is defined when `cv = []` (value of the evaluated density).  Validated by the tie on every run.
 -/
 namespace CuqiVerif.C01
 
@@ -178,58 +190,153 @@ end
 
 /-! ## order of the conditioning variables -/
 
-private lemma dedupInto_filter (p : Name → Bool) (acc l : List Name) :
-    (dedupInto acc l).filter p = dedupInto (acc.filter p) (l.filter p) := by
-  induction l generalizing acc with
-  | nil => simp [dedupInto]
-  | cons k ks ih =>
-    by_cases hp : p k = true
-    · by_cases hc : k ∈ acc
-      · have hc' : k ∈ acc.filter p := List.mem_filter.2 ⟨hc, hp⟩
-        simp [dedupInto, hc, hc', hp, ih]
-      · have hc' : k ∉ acc.filter p := fun h => hc (List.mem_filter.1 h).1
-        simp [dedupInto, hc, hc', hp, ih, List.filter_append]
-    · by_cases hc : k ∈ acc
-      · simp [dedupInto, hc, hp, ih]
-      · simp [dedupInto, hc, hp, ih, List.filter_append]
-
 /-- **Binding arguments keeps the order of the others.**  If every mutable variable keeps, of its
     open arguments, exactly those satisfying `p` (the names not bound by a conditioning call), then
     `get_indirect_variables` of the new distribution is `get_indirect_variables` of the old one
     filtered by `p` — same order, duplicates between callables still listed once. -/
 theorem indirectVars_filter (p : Name → Bool) (as bs : Attrs V)
     (h : List.Forall₂ (fun a b => b.2.args = a.2.args.filter p) as bs) :
-    indirectVars bs = (indirectVars as).filter p := by
-  unfold indirectVars
-  rw [dedupInto_filter]
-  congr 1
-  induction h with
-  | nil => rfl
-  | cons hab _ ih => simp [List.flatMap_cons, List.filter_append, hab, ih]
+    indirectVars bs = (indirectVars as).filter p := indirectVars_filter' p as bs h
 
 /-- after binding, the open arguments of a callable are the signature names the binding does not know -/
 theorem remArgs_canon (sig : List Name) (g : Name → Option V) :
-    remArgs sig (canon sig g) = sig.filter (fun n => (g n).isNone) := by
-  unfold remArgs
-  apply List.filter_congr
-  intro n hn
-  have : n ∈ kwKeys (canon sig g) ↔ (g n).isSome := by
-    simp only [kwKeys, canon, List.mem_map, List.mem_filterMap, Option.map_eq_some_iff]
-    constructor
-    · rintro ⟨⟨k, v⟩, ⟨m, _, w, hw, heq⟩, rfl⟩
-      simp only [Prod.mk.injEq] at heq
-      obtain ⟨rfl, rfl⟩ := heq
-      simp [hw]
-    · intro hs
-      obtain ⟨v, hv⟩ := Option.isSome_iff_exists.1 hs
-      exact ⟨(n, v), ⟨n, hn, v, hv, rfl⟩, rfl⟩
-  cases hg : g n with
-  | none => simp [hg] at this; simp [this]
-  | some v => simp [hg] at this; simp [this]
+    remArgs sig (canon sig g) = sig.filter (fun n => (g n).isNone) := remArgs_canon' sig g
 
 example : indirectVars ([("mean", .fn 0 ["x", "s"] [("s", 2)]), ("cov", .fn 1 ["s", "t"] [("s", 2)])] : Attrs Nat)
     = (indirectVars ([("mean", .fn 0 ["x", "s"] []), ("cov", .fn 1 ["s", "t"] [])] : Attrs Nat)).filter (· != "s") := by
   decide
+
+/-! ## refinement of the abstract model (`Model/C01.lean`) -/
+
+section
+variable [Zero K]
+
+/-- the abstract factor a fresh attribute-level distribution stands for: conditioning variables in
+    the code's order, log-density = family `logpdf` of the attribute values obtained by giving the
+    environment to the mutable variables -/
+def toFactor (d : ADist V K) : Factor V K :=
+  { name := d.name, params := acondVars d.attrs, dim := 0,
+    f := fun ρ => match ρ d.name, avals (bindAttrs ρ d.attrs) with
+      | some x, some vs => d.pdf vs x
+      | _, _ => 0 }
+
+end
+
+/-- side conditions on a fresh distribution (as given to the constructor): distinct mutable
+    variables, callables not yet partially applied and with pairwise distinct arguments, and the
+    two kinds of name collision excluded — an argument may be called like a mutable variable only
+    if it is the variable the callable sits in (`std=lambda std: …` is allowed); the
+    distribution's own name is neither a mutable variable nor a conditioning variable -/
+structure AOK (d : ADist V K) : Prop where
+  keys_nodup : (d.attrs.map (·.1)).Nodup
+  fresh : ∀ ka ∈ d.attrs, ∀ id sig b, ka.2 = .fn id sig b → b = [] ∧ sig.Nodup
+  nocoll : ∀ ka ∈ d.attrs, ∀ n ∈ ka.2.args, ∀ kb ∈ d.attrs, n = kb.1 → kb = ka
+  name_ok : d.name ∉ d.attrs.map (·.1) ∧ d.name ∉ acondVars d.attrs
+
+/-- **`get_conditioning_variables()` of the conditioned distribution = `free` of the abstract model.**
+    After the environment `env` has been given to a fresh distribution `d₀`, the code's
+    conditioning variables are exactly the abstract model's `free (toFactor d₀) env`: the original
+    ones `env` does not know, in the original order (any number of variables, shared arguments,
+    self-named arguments). -/
+theorem acondVars_bind_eq_free [Zero K] (d₀ : ADist V K) (h : AOK d₀) (env : Name → Option V) :
+    acondVars (bindD env d₀).attrs = free (toFactor d₀) env := by
+  unfold free toFactor bindD
+  exact acondVars_bind env d₀.attrs (fun ka hka id sig b hb => (h.fresh ka hka id sig b hb).1)
+
+/-- **One conditioning round on one mutable variable refines `bindEnv`.**  For a mutable variable
+    in the state reached by giving `env` to the fresh variable `a`, the loop body of
+    `Distribution._condition` with keywords `kw` produces the state reached by giving it
+    `env` completed by `kw` — provided a keyword carrying the variable's own name is only passed
+    while the variable is `None` or is an open argument of its own callable (no collision of the
+    "other" kind; the code refuses the remaining cases, `acond_refuses_nonconditioning_attribute`). -/
+theorem condAttr_refines_bind (env env' : Name → Option V) (kw : Kw V) (key : Name) (a : Attr V)
+    (hkw : (kwKeys kw).Nodup)
+    (hfresh : ∀ id sig b, a = .fn id sig b → sig.Nodup)
+    (henv' : ∀ n ∈ a.reads key, env' n = match env n with | some v => some v | none => kwGet kw n)
+    (hdirect : kwGet kw key ≠ none → env key = none ∧ (a = .none ∨ ∃ id sig b, a = .fn id sig b ∧ key ∈ sig)) :
+    (condAttr kw key (bindAttr env key a)).1 = bindAttr env' key a :=
+  condAttr_bind env env' kw key a hkw hfresh henv' hdirect
+
+example : (condAttr [("s", (2 : Nat))] "cov" (bindAttr (fun n => if n = "t" then some 3 else none) "cov" (.fn 0 ["s", "t"] []))).1
+    = bindAttr (fun n => if n = "t" then some 3 else if n = "s" then some 2 else none) "cov" (.fn 0 ["s", "t"] []) := by decide
+
+/-- **One `Distribution._condition` call moves all mutable variables from `bindD env d₀` to
+    `bindD (bindEnv env cv kw) d₀`** — the attribute-level loop computes exactly the environment
+    update of the abstract `condDist` (`bindEnv env (free F env) kw`), for every collision-free
+    fresh distribution, every environment and all keywords on which the code's refusal "mutable
+    variable … is not a conditioning variable" does not fire. -/
+theorem condAttrs_refine_bind (d₀ : ADist V K) (h : AOK d₀) (env : Name → Option V) (kw : Kw V)
+    (hkw : (kwKeys kw).Nodup)
+    (hkeys : ∀ k ∈ kwKeys kw, k ∈ d₀.attrs.map (·.1) → k ∈ acondVars (bindAttrs env d₀.attrs)) :
+    (bindAttrs env d₀.attrs).map (fun ka => (ka.1, (condAttr kw ka.1 ka.2).1))
+      = bindAttrs (bindEnv env (acondVars (bindAttrs env d₀.attrs)) kw) d₀.attrs := by
+  have hfr : ∀ ka ∈ d₀.attrs, ∀ id sig b, ka.2 = .fn id sig b → b = [] :=
+    fun ka hka id sig b hb => (h.fresh ka hka id sig b hb).1
+  have hcvmem : ∀ n, n ∈ acondVars (bindAttrs env d₀.attrs) ↔ n ∈ acondVars d₀.attrs ∧ env n = none := by
+    intro n
+    rw [acondVars_bind env d₀.attrs hfr, List.mem_filter]
+    cases env n <;> simp
+  unfold bindAttrs
+  rw [List.map_map]
+  apply List.map_congr_left
+  intro ka hka
+  obtain ⟨key, a⟩ := ka
+  simp only [Function.comp]
+  congr 1
+  have hreads : ∀ n ∈ a.reads key, n ∈ acondVars d₀.attrs := by
+    intro n hn
+    unfold acondVars
+    cases a with
+    | val x => simp [Attr.reads] at hn
+    | none =>
+      simp only [Attr.reads, List.mem_singleton] at hn
+      subst hn
+      exact List.mem_append_left _ ((mem_noneVars _ _).2 hka)
+    | fn id sig b =>
+      have hb := hfr _ hka id sig b rfl
+      subst hb
+      refine List.mem_append_right _ ((mem_indirectVars _ _).2 ⟨_, hka, ?_⟩)
+      simpa [Attr.args, Attr.reads, remArgs, kwKeys] using hn
+  apply condAttr_bind env _ kw key a hkw (fun id sig b hb => (h.fresh _ hka id sig b hb).2)
+  · intro n hn
+    have hm := hreads n hn
+    show (if (acondVars (bindAttrs env d₀.attrs)).contains n then kwGet kw n else env n) = _
+    cases he : env n with
+    | some v =>
+      have : ¬ n ∈ acondVars (bindAttrs env d₀.attrs) := fun hc => by simpa [he] using ((hcvmem n).1 hc).2
+      simp [this, he]
+    | none =>
+      have : n ∈ acondVars (bindAttrs env d₀.attrs) := (hcvmem n).2 ⟨hm, he⟩
+      simp [this]
+  · intro hne
+    have hin : key ∈ kwKeys kw := (kwGet_isSome_iff kw key).1 (by cases hh : kwGet kw key <;> simp_all)
+    have hkm : key ∈ d₀.attrs.map (·.1) := List.mem_map.2 ⟨_, hka, rfl⟩
+    obtain ⟨hc, he⟩ := (hcvmem key).1 (hkeys key hin hkm)
+    refine ⟨he, ?_⟩
+    unfold acondVars at hc
+    rcases List.mem_append.1 hc with hn | hi
+    · left
+      have := List.inj_on_of_nodup_map h.keys_nodup hka ((mem_noneVars _ _).1 hn) rfl
+      exact (Prod.mk.inj this).2
+    · right
+      obtain ⟨kb, hkb, hargs⟩ := (mem_indirectVars _ _).1 hi
+      have hEq : ((key, a) : Name × Attr V) = kb := h.nocoll kb hkb key hargs (key, a) hka rfl
+      subst hEq
+      cases a with
+      | val x => simp [Attr.args] at hargs
+      | none => simp [Attr.args] at hargs
+      | fn id sig b =>
+        have hb := hfr _ hka id sig b rfl
+        subst hb
+        exact ⟨id, sig, [], rfl, by simpa [Attr.args, remArgs, kwKeys] using hargs⟩
+
+/-- **Which keywords a round of the loop marks as processed**: the variable's own name if it is a
+    keyword, and the keywords that are open arguments of its callable — so a keyword is left
+    "unused" exactly when it is neither a mutable variable's name nor an open argument. -/
+theorem condAttr_processed_iff (kw : Kw V) (key : Name) (a : Attr V) (k : Name) :
+    k ∈ (condAttr kw key a).2 ↔ (k = key ∧ k ∈ kwKeys kw) ∨ (k ∈ kwKeys kw ∧ k ∈ a.args) :=
+  mem_condAttr_processed kw key a k
+
 
 /-! ## name collisions -/
 
